@@ -2,6 +2,7 @@
 C18 (serialisation independence), and the end-to-end slice of C08 (stored logs through `run`)."""
 import json
 import os
+import time
 import traceback
 
 import common
@@ -78,11 +79,18 @@ def c17_task(n_targets):
         sfile = files["Monorail.src.json"]
         edits.append(("source:append", "Monorail.src.json", sfile + b" "))
         edits.append(("source:edit", "Monorail.src.json", sfile.replace(b'"max_retained_runs": 3', b'"max_retained_runs": 4')))
+        edits.append(("source:edit+old-mtime", "Monorail.src.json", sfile.replace(b'"max_retained_runs": 3', b'"max_retained_runs": 5')))
+        edits.append(("source:edit+touch-generated", "Monorail.src.json", sfile.replace(b'"max_retained_runs": 3', b'"max_retained_runs": 6')))
         lk = files["Monorail.lock"]
         pos = lk.find(b'":"') + 3
         edits.append(("lock:checksum-digit", "Monorail.lock", lk[:pos] + (b"0" if lk[pos:pos + 1] != b"0" else b"1") + lk[pos + 1:]))
         for ename, fname, data in edits:
             open(r.path(fname), "wb").write(data)
+            if ename.endswith("old-mtime"):
+                os.utime(r.path(fname), (1_000_000_000, 1_000_000_000))
+            if ename.endswith("touch-generated"):
+                os.utime(r.path(fname), (time.time() - 100, time.time() - 100))
+                os.utime(r.path("Monorail.json"), None)
             before = sc.snapshot(r.dir, skip=(".git",))
             for name, argv in APIS:
                 r.clear_traces()
@@ -129,6 +137,10 @@ def c18_task(n_targets):
         pretty = json.dumps(val, indent=2)
         rev = json.dumps({k: val[k] for k in reversed(list(val))}, indent=1)
         sers = [("compact", compact), ("pretty", pretty), ("reversed-keys", rev), ("crlf", pretty.replace("\n", "\r\n")), ("tabs", json.dumps(val, indent="\t"))]
+        for lead in (1, 63, 64, 65, 100, 4096, 8192, 40000):
+            sers.append(("lead%d-spaces" % lead, " " * lead + compact))
+            sers.append(("lead%d-newlines" % lead, "\n" * lead + pretty))
+            sers.append(("lead%d-mixed" % lead, (" \t\r\n" * lead)[:lead] + rev))
         for total in (8191, 8192, 8193, 16385, 65537, 200001):
             if len(compact) <= total:
                 sers.append(("pad%d-end" % total, compact + " " * (total - len(compact))))
